@@ -522,6 +522,89 @@ MUTANTS = [
     ("c20-swapped-roles", ["C20"], "K2", X,
      "        contain, contained, intersect = utils.disk_interactions(\n            sctr, srad, octr, orad, broadcast=broadcast\n        )\n\n        res = np.full(contain.shape, True)",
      "        contain, contained, intersect = utils.disk_interactions(\n            octr, orad, sctr, srad, broadcast=broadcast\n        )\n\n        res = np.full(contain.shape, True)"),
+    ("c02-elliptic-block-over-time-axis", ["C02"], "BLK1", H,
+     "        mat[0,0] = utils.number(1, like=like, **kwargs)\n        mat[1:, 1:] = block_elliptic",
+     "        mat[-1,-1] = utils.number(1, like=like, **kwargs)\n        mat[:-1, :-1] = block_elliptic"),
+    ("c02-loxodromic-transpose-for-inverse", ["C02"], "BLK1", H,
+     "                        utils.invert(basis_change)),",
+     "                        basis_change.swapaxes(-1, -2)),"),
+    ("c02-loxodromic-pair-not-reciprocal", ["C02"], "BLK1", H,
+     "            np.concatenate(([parameter, 1.0/parameter],",
+     "            np.concatenate(([parameter, -1.0/parameter],"),
+    ("c02-reflection-householder-unnormalised", ["C02", "C15"], "HOM1", H,
+     "        refdata = (utils.invert(dual_data) @\n                   self.minkowski @\n                   dual_data)",
+     "        normal = dual_data[..., :1, :]\n        refdata = utils.identity(self.dimension + 1, like=dual_data) - 2 * (self.minkowski @ normal.swapaxes(-1, -2) @ normal)"),
+    ("c02-pseudo-inverse", ["C02"], "PINV1", C,
+     "    return np.linalg.inv(mat)",
+     "    return np.linalg.pinv(mat)"),
+    # ---- rules written from round 8
+    ("c09-label-view-whole-deepcopy", ["C09"], "DC1", G + "automata/fsa.py",
+     "        self._graph_dict = {v: copy.deepcopy(neighbors)\n                            for v, neighbors in graph_dict.items()}\n",
+     "        self._graph_dict = copy.deepcopy(graph_dict)\n"),
+    ("c09-label-view-shallow-copy", ["C09"], "DC1", G + "automata/fsa.py",
+     "        self._graph_dict = {v: copy.deepcopy(neighbors)\n                            for v, neighbors in graph_dict.items()}\n",
+     "        self._graph_dict = dict(graph_dict)\n"),
+    ("c16-affine-translation-float-buffer", ["C16"], "LK3", P,
+     "    tf = utils.identity(len(translation) + 1, like=translation,\n                        integer_type=False)\n",
+     "    tf = np.identity(len(translation) + 1)\n"),
+    ("c17-block-include-untyped-identity", ["C17"], "LK3", G + "lie/core.py",
+     "    arr = utils.zeros(A.shape[:-2] + (dimension, dimension),\n                      like=A)",
+     "    arr = np.zeros(A.shape[:-2] + (dimension, dimension))"),
+    ("c03-isometry-inv-by-adjoint", ["C03", "C02"], "INV3", H,
+     "    def _data_to_object(self, data):\n        return HyperbolicObject(data)\n",
+     "    def _data_to_object(self, data):\n        return HyperbolicObject(data)\n\n    def inv(self):\n        form = self.minkowski\n        return self.__class__(form @ self.matrix.swapaxes(-1, -2) @ form)\n"),
+    ("c13-isometry-to-transposed-frame", ["C13"], "RC2", H,
+     "        return other.origin_to(**kwargs) @ self.origin_to(**kwargs).inv()",
+     "        frame = self.origin_to(**kwargs).proj_data\n        return other.origin_to(**kwargs) @ Isometry(frame.swapaxes(-1, -2))"),
+    ("c13-origin-to-column-flag", ["C13"], "RC", H,
+     "        return Isometry(isom, column_vectors=False)\n\n    def unit_tangent_towards",
+     "        return Isometry(isom, column_vectors=True)\n\n    def unit_tangent_towards"),
+    ("c18-orientation-negate-all", ["C18", "C13", "C02"], "ORI1", C,
+     "    preserved[det(preserved) < 0, -1, :] *= -1",
+     "    preserved[det(preserved) < 0] *= -1"),
+    ("c18-orientation-where-negate", ["C18"], "ORI1", C,
+     "    preserved = matrix.copy()\n    preserved[det(preserved) < 0, -1, :] *= -1\n    return preserved",
+     "    return np.where((det(matrix) < 0)[..., np.newaxis, np.newaxis], -matrix, matrix)"),
+    ("c08-eigs-abs-before-ordering", ["C08", "C18"], "NONNEG1", C,
+     "    n_eigs = eigs.astype('float64')",
+     "    eigs = np.abs(eigs)\n    n_eigs = eigs.astype('float64')"),
+    ("c08-order-by-sqrt", ["C08"], "NONNEG1", C,
+     "    n_eigs = eigs.astype('float64')",
+     "    n_eigs = np.sqrt(np.abs(eigs)).astype('float64')"),
+    ("c16-diagonalize-eigh-symmetric", ["C16"], "EIGH2", P,
+     "        _, conj = utils.eig(self.proj_data.swapaxes(-1, -2),\n                            **kwargs)",
+     "        mat = self.proj_data.swapaxes(-1, -2)\n        if np.allclose(mat, self.proj_data):\n            _, conj = utils.eigh(mat)\n        else:\n            _, conj = utils.eig(mat, **kwargs)"),
+    ("c11-astype-round-primary-only", ["C11"], "S1u", P,
+     "        new_proj = self.proj_data.astype(dtype)\n",
+     "        new_proj = np.rint(self.proj_data).astype(dtype)\n"),
+    ("c05-tensor-inverse-by-hand", ["C05"], "INVS2", G + "representation.py",
+     "                product_rep[gen] = np.array(elt)\n",
+     "                inv = self.invert_gen(gen)\n                product_rep._set_generator(gen, np.array(elt), compute_inverse=False)\n                product_rep._set_generator(inv, np.kron(rep[inv], self[inv]), compute_inverse=False)\n"),
+    ("c01-poincare-radial-division", ["C01"], "ZD2", H,
+     "    mult_factor = 1 / (1 + np.sqrt(np.abs(1 - euc_norms)))\n\n    return (points.T * mult_factor.T).T",
+     "    radii = np.sqrt(euc_norms)\n    with np.errstate(divide=\"ignore\", invalid=\"ignore\"):\n        mult_factor = np.tanh(np.arctanh(np.minimum(radii, 1)) / 2) / radii\n\n    return (points.T * mult_factor.T).T"),
+    ("c01-klein-divide-by-one-minus-norm", ["C01"], "ZD2", H,
+     "    mult_factor = 2 / (1 + euc_norms)\n",
+     "    mult_factor = 2 / (1 - euc_norms * euc_norms + euc_norms * euc_norms + euc_norms - 1 + 1 - euc_norms)\n"),
+    ("c12-poincare-getter-signed-sum", ["C12", "C01"], "HOM1", H,
+     "        return kleinian_to_poincare(self.kleinian_coords())\n\n    def halfspace_coords",
+     "        time = self.proj_data[..., :1]\n        space = self.proj_data[..., 1:]\n        hyp_norm = np.sqrt(np.abs(time * time - utils.normsq(space)[..., np.newaxis]))\n        return space / (time + hyp_norm)\n\n    def halfspace_coords"),
+    ("c14-sphere-params-instance-cache", ["C14"], "C2", H,
+     "        return center, radius\n\n    def boundary_sphere_parameters",
+     "        cached = self.__dict__.setdefault('_sphere_cache', {})\n        cached.setdefault(str(model), (center, radius))\n        return cached[str(model)]\n\n    def boundary_sphere_parameters"),
+    ("c20-circle-parameters-swapaxes-unpack", ["C20"], "SH6",
+     G + "complex_projective.py",
+     "        p1, p2, p3 = (bdry_aff_coords[..., i, :]\n                      for i in range(3))",
+     "        p1, p2, p3 = bdry_aff_coords.swapaxes(0, -2)"),
+    ("c02-find-isometry-euclidean-kernel-normalise", ["C02", "C13", "C18"], "FORM1", C,
+     "    orth_kernel = indefinite_orthogonalize(form, kernel_basis)",
+     "    orth_kernel = indefinite_orthogonalize(np.identity(form.shape[-1]), kernel_basis)"),
+    ("c02-gram-schmidt-normalise-euclidean", ["C02", "C13", "C18"], "FORM1", C,
+     "        result[..., i, :] = row\n\n    return normalize(result, form)",
+     "        result[..., i, :] = row\n\n    return normalize(result)"),
+    ("c02-origin-to-euclidean-normalise", ["C02", "C13"], "FORM1", H,
+     "        return Isometry(isom, column_vectors=False)\n\n    def unit_tangent_towards",
+     "        return Isometry(isom, column_vectors=False)\n\n    def _unit(self):\n        return utils.normalize(self.proj_data)\n\n    def unit_tangent_towards"),
     # ---- rules written from round 7
     ("c01-klein-to-poincare-snap-boundary", ["C01"], "TOL1", H,
      "    mult_factor = 1 / (1 + np.sqrt(np.abs(1 - euc_norms)))\n\n    return (points.T * mult_factor.T).T",
@@ -647,7 +730,7 @@ SEEDED = [
     ("r4-C12-1", "C12", "SH5"), ("r4-C12-2", "C12", "P1q"),
     ("r4-C13-1", "C13", "LK1"), ("r4-C13-2", "C13", "C2"),
     ("r4-C14-1", "C14", "AX1"), ("r4-C14-2", "C14", "S2"),
-    ("r4-C15-1", "C15", "R1"), ("r4-C15-2", "C15", "SH5"),
+    ("r4-C15-1", "C15", "R1"), ("r4-C15-2", "C15", "C2"),
     ("r4-C19-1", "C19", "DER1"), ("r4-C20-1", "C20", "C2"),
     ("r4-C20-2", "C20", "K2"),
     # round 5 (unsteered): 5 of 36 caught when first evaluated
@@ -695,6 +778,24 @@ SEEDED = [
     ("r7-C20-2", "C20", "HOM1"), ("r7-C09-2", "C09", "OFS1"),
     ("r7-C11-2", "C11", "HOM1"), ("r7-C13-1", "C13", "RNG1"),
     ("r7-C17-1", "C17", "EXP1"), ("r7-C01-2", "C01", "TOL1"),
+    # round 8 (unsteered): 9 of 36 caught by the property's own check when
+    # first evaluated
+    ("r8-C01-2", "C01", "ZD2"), ("r8-C03-2", "C03", "INV3"),
+    ("r8-C04-1", "C04", "RO"), ("r8-C04-2", "C04", "LK1"),
+    ("r8-C05-2", "C05", "INVS2"), ("r8-C06-1", "C06", "M1"),
+    ("r8-C08-1", "C08", "NONNEG1"), ("r8-C10-2", "C10", "RF1"),
+    ("r8-C11-1", "C11", "P1g"), ("r8-C11-2", "C11", "S1u"),
+    ("r8-C12-1", "C12", "HOM1"), ("r8-C12-2", "C12", "HOM1"),
+    ("r8-C13-1", "C13", "HOM1"), ("r8-C13-2", "C13", "RC2"),
+    ("r8-C14-1", "C14", "ENUM1"), ("r8-C14-2", "C14", "C2"),
+    ("r8-C16-1", "C16", "C2"), ("r8-C16-2", "C16", "EIGH2"),
+    ("r8-C17-1", "C17", "SH8"), ("r8-C17-2", "C17", "LK3"),
+    ("r8-C18-1", "C18", "ORI1"), ("r8-C20-1", "C20", "SH6"),
+    ("r8-C20-2", "C20", "K2"),
+    # round 9 (C02 only, six changes, unsteered): 2 of 6 caught by C02's
+    # check when first evaluated
+    ("r9-C02a-1", "C02", "HOM1"), ("r9-C02b-1", "C02", "HOM1"),
+    ("r9-C02b-2", "C02", "LK1"),
 ]
 # seeded changes no static rule here decides (numerical / heuristic):
 # C14-1, C15-1, C15-2, C19-1, C20-2, r2-C12-2, r2-C14-1, r2-C15-2, r2-C19-1,
@@ -702,8 +803,10 @@ SEEDED = [
 # r5-C17-1, r5-C18-2, r6-C05-2, r6-C13-1, r6-C13-2, r6-C15-2,
 # r6-C16-1, r6-C17-1, r6-C18-1, r6-C19-1, r6-C19-2, r6-C20-2,
 # r7-C04-1, r7-C04-2, r7-C05-1, r7-C06-1, r7-C08-2, r7-C09-1, r7-C15-1,
-# r7-C16-1, r7-C17-2, r7-C18-1, r7-C19-2, r7-C20-1 -- see DESIGN.md
-# section 6.2
+# r7-C16-1, r7-C17-2, r7-C18-1, r7-C19-2, r7-C20-1, r8-C01-1, r8-C03-1,
+# r8-C05-1, r8-C06-2, r8-C08-2, r8-C09-1, r8-C09-2, r8-C10-1, r8-C15-1,
+# r8-C15-2, r8-C18-2, r8-C19-1, r8-C19-2, r9-C02a-2, r9-C02c-1, r9-C02c-2
+# -- see DESIGN.md section 6.2
 
 # behaviour-preserving edits: every listed property must stay silent (exit 0)
 NEUTRAL = [
@@ -842,6 +945,33 @@ NEUTRAL = [
     ("n-halfspace-infinity-exact-zero", ["C01", "C12"], H,
      "    denom = (x2 + (y - 1)*(y - 1))\n\n    with np.errstate(divide=\"ignore\", invalid=\"ignore\"):\n        halfspace_coords[..., :-1] = (-2 * v) / denom[..., np.newaxis]\n        halfspace_coords[..., -1] = (1 - x2 - y * y) / denom\n",
      "    denom = (x2 + (y - 1)*(y - 1))\n    finite = denom != 0\n\n    with np.errstate(divide=\"ignore\", invalid=\"ignore\"):\n        halfspace_coords[..., :-1] = (-2 * v) / denom[..., np.newaxis]\n        halfspace_coords[..., -1] = (1 - x2 - y * y) / denom\n    assert finite.shape == denom.shape\n"),
+    ("n-affine-translation-typed-by-dtype", ["C16", "C12"], P,
+     "    tf = utils.identity(len(translation) + 1, like=translation,\n                        integer_type=False)\n",
+     "    tf = np.identity(len(translation) + 1, dtype=np.result_type(np.asarray(translation).dtype, float))\n"),
+    ("n-orientation-first-row", ["C18", "C13"], C,
+     "    preserved[det(preserved) < 0, -1, :] *= -1",
+     "    reversing = det(preserved) < 0\n    preserved[reversing, -1, :] = -preserved[reversing, -1, :]"),
+    ("n-eigs-abs-in-new-name", ["C08", "C18"], C,
+     "    Dinv = construct_diagonal(np.sqrt(np.abs(eigs)))",
+     "    moduli = np.abs(eigs)\n    Dinv = construct_diagonal(np.sqrt(moduli))"),
+    ("n-isometry-to-explicit-invert", ["C13", "C03"], H,
+     "        return other.origin_to(**kwargs) @ self.origin_to(**kwargs).inv()",
+     "        frame_inv = Isometry(utils.invert(self.origin_to(**kwargs).proj_data))\n        return other.origin_to(**kwargs) @ frame_inv"),
+    ("n-transformation-inv-np-linalg", ["C03"], P,
+     "        return self.__class__(utils.invert(self.matrix))",
+     "        return self.__class__(np.linalg.inv(self.matrix))"),
+    ("n-klein-to-poincare-named-divisor", ["C01", "C12"], H,
+     "    mult_factor = 1 / (1 + np.sqrt(np.abs(1 - euc_norms)))",
+     "    height = np.sqrt(np.abs(1 - euc_norms))\n    mult_factor = 1 / (1 + height)"),
+    ("n-label-view-rows-by-dict", ["C09", "C10"], G + "automata/fsa.py",
+     "        self._graph_dict = {v: copy.deepcopy(neighbors)\n                            for v, neighbors in graph_dict.items()}\n",
+     "        self._graph_dict = {}\n        for v, neighbors in graph_dict.items():\n            self._graph_dict[v] = copy.deepcopy(neighbors)\n"),
+    ("n-loxodromic-pair-by-power", ["C02"], H,
+     "            np.concatenate(([parameter, 1.0/parameter],",
+     "            np.concatenate(([parameter, parameter**-1],"),
+    ("n-elliptic-explicit-slices", ["C02", "C13"], H,
+     "        mat[1:, 1:] = block_elliptic",
+     "        mat[1:dimension + 1, 1:dimension + 1] = block_elliptic"),
     ("n-irrep-guarded-loop", ["C17"], G + "lie/core.py",
      "            for i in range(max(0, j - r + k), min(j+1, k+1)):\n",
      "            for i in range(min(j, k) + 1):\n                if r - k - j + i < 0:\n                    continue\n"),
@@ -867,7 +997,8 @@ NEUTRAL = [
 # byte-identical before/after): /verif/neutral/<region>-<k>/patch.diff.
 # Every property's check must stay silent on each of them.
 NEUTRAL_PATCHES = [f"N{i}-{k}" for i in range(1, 35) for k in range(1, 6)] \
-    + ["N35-1"]
+    + ["N35-1"] \
+    + [f"N{i}-{k}" for i in range(36, 43) for k in range(1, 6)]
 
 
 def _apply(root, rel, old, new):
@@ -985,7 +1116,7 @@ def run(pids=None, jobs=16, root=None, quiet=False):
                          os.path.join(seeded_dir, sid, "patch.diff"),
                          None, None, src))
     neutral_dir = os.path.join(os.path.dirname(seeded_dir), "neutral")
-    allp = ["C01", "C03", "C04", "C05", "C06", "C08", "C09", "C10", "C11",
+    allp = ["C01", "C02", "C03", "C04", "C05", "C06", "C08", "C09", "C10", "C11",
             "C12", "C13", "C14", "C15", "C16", "C17", "C18", "C19", "C20"]
     for nid in NEUTRAL_PATCHES:
         sel = [p for p in allp if want is None or p in want]
